@@ -20,12 +20,25 @@ NA = {
 
 # engine -> (kind text)
 ENGINES = {
+ "metricsim": (["C02","C08","C12"], "token scheduler over simgen-instrumented sdk/metric and internal/aggregate; delta + cumulative ManualReader, optional PeriodicReader with scripted exporter; bit-decoded conservation oracle, joint collection points"),
  "spanlin": (["C10"], "token scheduler over simgen-instrumented sdk/trace; recording SpanProcessors; porcupine linearizability check against a sequential span model; runtime/trace toggled per seed block"),
  "bsp": (["C01"], "token scheduler over simgen-instrumented sdk/trace inside a synctest bubble; scripted SpanExporter"),
  "logbatch": (["C06"], "token scheduler over simgen-instrumented sdk/log inside a synctest bubble; scripted log Exporter and a mutating second Processor"),
 }
 
 CHECKS = {
+ "C02": dict(engine="metricsim",
+   text="seeded search over interleavings of Add/Record from several goroutines with Collect on a delta and a cumulative ManualReader, a PeriodicReader's interval exports, ForceFlush and the final Shutdown collection; every increment of an instrument is a distinct power of two, so each reported value names exactly the set of measurements it contains; oracle: each measurement in exactly one delta collection, within its may/must window, seen by every reader, cumulative never forgets, monotonic sums never decrease, flush/shutdown visibility",
+   ref="DESIGN.md §3 C02",
+   note="sequentially consistent interleavings of instrumented sdk/metric code (statement granularity plus split read-modify-writes); the periodic reader's exporter is a stub; sampling, not enumeration"),
+ "C08": dict(engine="metricsim",
+   text="same simulated histories as C02 with joint collection points (delta and cumulative reader collected back to back while no measurement is in flight, recorders still alive): cumulative sums / histogram count, sum, buckets, min, max equal the fold of all deltas so far; delta intervals adjacent and non-overlapping across zero and long simulated gaps, cumulative start fixed; asynchronous instruments report exactly the observed sets with delta = observed - previously observed while callbacks are registered and unregistered concurrently; gauges report the last value of the cycle",
+   ref="DESIGN.md §3 C08",
+   note="joint points are produced by a harness gate (a legal schedule restriction); exponential histograms are not part of the workload; with a cardinality limit only totals are compared (identities may legitimately differ between the readers)"),
+ "C12": dict(engine="metricsim",
+   text="same simulated histories with the experimental cardinality limit really set (L in 1,2,3,5) and views (attribute filter, rename, drop, two views on one instrument): per collection at most L sets and at most one overflow set, overflow only when more than L-1 sets were offered, every measurement bit under its own filtered set or under overflow and exactly once, placement rule for the first L-1 sets checked on the cumulative reader with may/must windows, dropped streams report nothing, every view stream receives every measurement",
+   ref="DESIGN.md §3 C12",
+   note="schedule-dependent content only: the limiter's check-then-insert under concurrent recorders and collections; the full input space of views/filters is not enumerated"),
  "C10": dict(engine="spanlin",
    text="seeded search over interleavings of End/SetAttributes/AddEvent/AddLink/SetStatus/SetName/RecordError/IsRecording/child Start on shared spans, with Go execution tracing really on and off; recorded invoke/return histories are checked for linearizability with porcupine against a sequential span model, plus direct checks (exactly one OnEnd per processor, immutable snapshot, single end time, not recording after End, no panic/deadlock)",
    ref="DESIGN.md §3 C10",
